@@ -107,7 +107,26 @@ func buildHostileScenario(r *Rng, idx int, maxConns int, endings []string) *Scen
 	var classes []string
 	for si, k := range keys {
 		s := svcByKey(k)
-		cfg.WriteString(s.config(fmt.Sprintf("svc%d", si)))
+		if !s.UDP && protoLike[s.Key] == "" && s.Key != "https" && r.Chance(0.12) {
+			// the port is shared: a service with a payload detector stands in front of this one (the server peeks at
+			// the first bytes to choose); besides the usual clients one connects and never sends a byte
+			det := r.Pick([]string{"http", "cwmp", "docker", "ssh-simulator"})
+			if det == s.Type {
+				det = "http"
+			}
+			fmt.Fprintf(&cfg, "\n[service.det%d]\ntype=%s\n\n[service.svc%d]\ntype=%s\n%s\n[[port]]\nport=%s\nservices=[\"det%d\",\"svc%d\"]\n",
+				si, tomlStr(det), si, tomlStr(s.Type), s.Cfg, tomlStr(fmt.Sprintf("tcp/%d", s.Port)), si, si)
+			quiet := Actor{Kind: "tcp", Src: clientAddr(actor), Dst: fmt.Sprintf("%s:%d", sensorIP, s.Port), Svc: s.Key}
+			if r.Chance(0.5) {
+				quiet.Ops = []Op{{K: "sleep", Ms: 40000}, {K: "close"}}
+			}
+			actor++
+			sc.Actors = append(sc.Actors, quiet)
+			classes = append(classes, "shared-port+silent")
+			faults = append(faults, "silence")
+		} else {
+			cfg.WriteString(s.config(fmt.Sprintf("svc%d", si)))
+		}
 		nc := r.Range(1, maxConns)
 		for c := 0; c < nc; c++ {
 			if (s.Key == "ssh-simulator" || s.Key == "ssh-auth") && r.Chance(0.65) {
